@@ -27,7 +27,9 @@ fn Tot(D set[ref], vals map[ref]seq[ref], l ref) int
 
 axiom occ_nonneg: forall s seq[ref], l ref {Occ(s, l)} :: Occ(s, l) >= 0
 axiom occ_empty: forall s seq[ref], l ref {Occ(s, l)} :: len(s) == 0 ==> Occ(s, l) == 0
-axiom occ_append: forall s seq[ref], x ref, l ref {Occ(append(s, x), l)} :: Occ(append(s, x), l) == Occ(s, l) + ite(x == l, 1, 0)
+# (guarded by len(s) >= 0: the SMT sort of sequences also contains records with a negative length, for which appending
+# gives an EMPTY sequence - without the guard occ_append and occ_empty contradict each other on such a record)
+axiom occ_append: forall s seq[ref], x ref, l ref {Occ(append(s, x), l)} :: len(s) >= 0 ==> Occ(append(s, x), l) == Occ(s, l) + ite(x == l, 1, 0)
 lemmadef occ_unfold(s seq[ref]):
     forall l ref {Occ(s, l)} :: len(s) > 0 ==> Occ(s, l) == ite(s[0] == l, 1, 0) + Occ(s[1:], l)
 
